@@ -37,8 +37,8 @@ def build_case(case):
 def eval_run(case, oracles, timeout_s=90, step_tie=True):
     full = build_case(case)
     fault = full.get("fault_step")
-    with steptie.tie_for(full, step_tie) as tie:
-        r = scen.run_real(full, timeout_s=timeout_s, fault_step=fault)
+    r, tie_lines, tie_impl = steptie.run_with_tie(
+        full, lambda: scen.run_real(full, timeout_s=timeout_s, fault_step=fault), step_tie)
     viol, stats = [], [full["strategy"]]
     for o in oracles:
         if o is runoracle.check_c17:
@@ -50,9 +50,8 @@ def eval_run(case, oracles, timeout_s=90, step_tie=True):
             and len(r["trace"]) == r["step_i"]:
         lines.append(runoracle.runloop_line(full, r))
         impl.append(runoracle.runloop_impl(full, r))
-    if not r.get("timeout"):
-        lines += tie.lines
-        impl += tie.impl
+    lines += tie_lines
+    impl += tie_impl
     if r.get("aborted"):
         stats.append("aborted")
         txt = [l for l in r.get("abort_text", "").strip().split("\n") if l.strip() and not l.startswith("Energy")]
